@@ -243,6 +243,11 @@ structure Scope where
   interruptable : Bool := true
   activity : Option ActId := none
   cancelSelf : SigId
+  /-- program-level name and instance number (for traces) -/
+  name : Name := 0
+  inst : Nat := 0
+  /-- scope created by a library function (`collect`): not reported in traces -/
+  silent : Bool := false
   /-- `InterruptScope`: the notification listened to and the interrupt signal -/
   notification : Option CondId := none
   interrupt : Option SigId := none
@@ -317,6 +322,8 @@ inductive Frame (τ : Type) where
   | notifHib (c : CondId) (wake : SigId)
   /-- `yield from __HIBERNATE__` with no wake-up (eternity, passed dates) -/
   | foreverHib
+  /-- statement-level marker below an `await <condition>`: logs the truth value at resumption -/
+  | awaitMark (c : CondId)
   /-- `Condition.__await__`: inside the `while not self` loop / after the initial postpone -/
   | condLoop (c : CondId)
   /-- `Connective.__await_children__`: waiting for the initial postpone, or hibernating with subscriptions -/
@@ -340,7 +347,7 @@ inductive Frame (τ : Type) where
   | tryBlock (handlers : List (List Pat × List (Stmt τ)))
   /-- lock: waiting in `__aenter__`; body marker -/
   | lockWait (l : Name) (cont : LockCont τ)
-  | lockBody (l : Name)
+  | lockBody (l : Name) (user : Bool)
   /-- `Queue._await_message` after its suspension (postpone on a buffered item / wait for an item) -/
   | qGetPop (q : Name)
   /-- statement-level continuation: log the received value -/
@@ -370,6 +377,9 @@ inductive Frame (τ : Type) where
   | tickBody (isInterval : Bool) (period last : τ) (remaining : Nat) (body : List (Stmt τ))
   /-- `collect()`: awaiting the tasks in argument order after its scope ended -/
   | collectAwait (todo : List Name) (acc : List Int)
+  /-- statement-level markers: completion of `transfer`, of an `async with borrow/claim` block -/
+  | transferDone (p : Name)
+  | borrowMark (r : Name)
   /-- marker of a nested `usim.run()`: the caller continues here when the inner loop returns -/
   | nestedRun
   /-- `payload_wrapper` suspended in its start delay -/
@@ -464,6 +474,7 @@ structure World (τ : Type) where
   saved : List (Saved τ) := []
   freshName : Nat := 100000
   nestedRuns : Nat := 0
+  scopeInsts : Nat := 0
   deriving Inhabited
 
 end USim.Machine
